@@ -36,7 +36,7 @@ def scope_state_writes(an: Analysis, cls_q: str = SS, attr: str = "_state"):
             return t is not None and t.name == ssq
         return False
 
-    for fi in prog.functions.values():
+    for fi in prog.scan_functions():
         for n in fi.own_nodes():
             if isinstance(n, (ast.Assign, ast.AugAssign, ast.AnnAssign, ast.Delete)):
                 tg = n.targets if isinstance(n, (ast.Assign, ast.Delete)) else [n.target]
